@@ -142,14 +142,27 @@ def make_harness(P):
         db = lib.dense_of(b) if b is not None else None
         do = lib.dense_of(o) if o is not None else None
 
+        def meta(x):
+            return None if x is None else (np.array(x.qntot, dtype=object).copy(), [np.array(q, dtype=object).copy() for q in x.qn], x.qnidx)
+        ma, mb, mo = meta(a), meta(b), meta(o)
+
+        def same_meta(x, m):
+            # sector, bond labels and centre of an operand are what they were (an in-place update of a shared label array shows up here)
+            return ctx.all([lib.ctx_eq_labels(ctx, x.qntot, m[0]), x.qnidx == m[2], len(x.qn) == len(m[1])]
+                           + [lib.ctx_eq_labels(ctx, np.asarray(p_), np.asarray(q_)) for p_, q_ in zip(x.qn, m[1])])
+
         def same_inputs():
             cs = []
             if a is not None:
                 cs.append(ctx.eq(lib.dense_of(a), da))
+                if op != "move_qnidx":
+                    cs.append(same_meta(a, ma))
             if b is not None:
                 cs.append(ctx.eq(lib.dense_of(b), db))
+                cs.append(same_meta(b, mb))
             if o is not None:
                 cs.append(ctx.eq(lib.dense_of(o), do))
+                cs.append(same_meta(o, mo))
             return ctx.all(cs)
 
         if op == "add" or op == "sub":
